@@ -44,10 +44,10 @@ man = {
               "baseline_off_cmd": "cd /repo && /venv/bin/python -m pytest -ra -q -p no:cacheprovider --timeout=900 --continue-on-collection-errors",
               "source_commits": [], "add_only": True},
     "engines": [{"name": "sa", "path": "/verif/sa", "serves_properties": [c["property_id"] for c in checks],
-                 "kind_free_text": "repository-specific static analyser over Python ast: program model with CHA call graph, statement CFG with exceptional edges and dominators, effect summaries, constant folder with Jinja/regex fragment parsers, path-sensitive symbolic evaluation of single functions"}],
+                 "kind_free_text": "repository-specific static analyser over Python ast: program model with CHA call graph, statement CFG with exceptional edges and dominators, effect summaries, constant folder with Jinja/regex fragment parsers, path-sensitive symbolic evaluation of single functions, an abstract evaluator of the repository's own source over kind-level values (NF-4, PERM-1), a normal-form pass for spellings (sa/canon.py) and a confidence gate that withholds the verdicts of shape-dependent rules on restructured code (sa/shapegate.py, baseline_shapes.json)"}],
     "checks": checks,
     "not_applicable": na,
-    "notes": "Technique family: static analysis only. Each check decides named structural clauses (necessary conditions) of its property for all inputs and states what it does not decide; see DESIGN.md. Exit 2 = ANALYSIS-ERROR (fail closed), never a VIOLATION line.",
+    "notes": "Technique family: static analysis only. Each check decides named structural clauses (necessary conditions) of its property for all inputs and states what it does not decide; see DESIGN.md. Exit 2 = ANALYSIS-ERROR (fail closed), never a VIOLATION line: an anchor vanished, the evaluator met a construct it does not know, or a rule that recognises how the repository implements a clause found something on code that was restructured since the revision the rules were validated on (verdict withheld; DESIGN.md 10.7).",
 }
 json.dump(man, open(os.path.join(HERE, "MANIFEST.json"), "w"), indent=1)
 print(len(checks), "checks;", len(na), "not applicable")
